@@ -31,7 +31,7 @@
 (***************************************************************************)
 EXTENDS Integers, Sequences, FiniteSets, TLC
 
-CONSTANTS U, R, MaxSteps
+CONSTANTS U, R, MaxSteps, MaxRestarts
 VARIABLES it,        \* next step number of each walker
           first,     \* first step of a run: no hill
           own,       \* set of steps at which the walker deposited a hill
@@ -112,7 +112,21 @@ Step(w, view) ==
                   /\ flushed' = [flushed EXCEPT ![w] = IF share THEN Len(newbuf) ELSE @]
         /\ it' = [it EXCEPT ![w] = t + 1] /\ first' = [first EXCEPT ![w] = FALSE]
         /\ hist' = Append(hist, [w |-> w, t |-> t, view |-> view])
-WNext == \E w \in Walkers : \E view \in Views(Peer(w)) : Step(w, view)
+\* stop, save the module state, start a new process, load the state and set up the output: the walker publishes a fresh
+\* snapshot of everything it has deposited, recreates its hills file, forgets what it had merged from the peer (it will
+\* re-read the peer's snapshot at its next exchange) and repeats its last step without depositing
+Restart(w) ==
+  /\ ~first[w] /\ it[w] > 0 /\ MaxRestarts > 0 /\ Len(SelectSeq(hist, LAMBDA h : h.t = -1)) < MaxRestarts
+  /\ it' = [it EXCEPT ![w] = @ - 1] /\ first' = [first EXCEPT ![w] = TRUE]
+  /\ sstep' = [sstep EXCEPT ![w] = it[w] - 1] /\ gen' = [gen EXCEPT ![w] = @ + 1]
+  /\ buf' = [buf EXCEPT ![w] = <<>>] /\ flushed' = [flushed EXCEPT ![w] = 0]
+  /\ mir' = [mir EXCEPT ![w] = {}] /\ cursor' = [cursor EXCEPT ![w] = 0] /\ cgen' = [cgen EXCEPT ![w] = 0]
+  /\ insync' = [insync EXCEPT ![w] = FALSE] /\ fstep' = [fstep EXCEPT ![w] = 0]
+  /\ lastgot' = [lastgot EXCEPT ![w] = {}] /\ missing' = [missing EXCEPT ![w] = {}]
+  /\ hist' = Append(hist, [w |-> w, t |-> -1, view |-> [n |-> 0, partial |-> FALSE]])
+  /\ UNCHANGED <<own, dup, quirk>>
+WNext == \/ \E w \in Walkers : \E view \in Views(Peer(w)) : Step(w, view)
+         \/ \E w \in Walkers : Restart(w)
 WSpec == WInit /\ [][WNext]_wvars
 
 \* a complete view: everything the peer has flushed, no torn record
